@@ -331,12 +331,18 @@ func c11One(c *Ctx, pki *PKI, st c11State) {
 		return
 	}
 	var conns []net.Conn
+	var stormMu sync.Mutex // guards conns: in one state other goroutines add connections while this one does
 	var stopClients atomic.Bool
 	var cwg sync.WaitGroup
 	closeAll := func() {
 		stopClients.Store(true)
-		for _, cn := range conns {
-			cn.Close()
+		stormMu.Lock()
+		l := append([]net.Conn{}, conns...)
+		stormMu.Unlock()
+		for _, cn := range l {
+			if cn != nil {
+				cn.Close()
+			}
 		}
 	}
 	search := func(id int64, base string) []byte {
@@ -348,7 +354,9 @@ func c11One(c *Ctx, pki *PKI, st c11State) {
 			c.Inconclusive("dial: " + err.Error())
 			return
 		}
+		stormMu.Lock()
 		conns = append(conns, cn)
+		stormMu.Unlock()
 		switch kind {
 		case "idle":
 			// one verified round trip, then silence
@@ -460,7 +468,6 @@ func c11One(c *Ctx, pki *PKI, st c11State) {
 		kinds = []string{"idle", "half-frame", "starttls-idle", "busy-pipelining", "not-reading", "starttls-pending", "not-reading+unbind", "not-reading+half-close", "not-reading+starttls-pending"}
 	}
 	var storm sync.WaitGroup
-	var stormMu sync.Mutex
 	stopStorm := make(chan struct{})
 	if st.Name == "connecting-while-stopping" {
 		// st.Conns goroutines dial in a loop; whatever connects stays connected and silent. The storm goes on for a
